@@ -179,7 +179,7 @@ func (w *govcTW) node(n *govcNode) {
 }
 
 var govcKWs = []string{"container", "leaf", "description", "x", "ünï", "a-b.c", "p:ext", "type", "k9", "must"}
-var govcPieces = []string{"a", "b c", "name1", "", " lead", "two\nlines", "x\n\n  y", "tab\there", "quo\"te", "sin'gle", "back\\slash", "é ü", "a;b{c}d", "//not-a-comment", "/* nor this */", "semi;", "+", "1+2", "trail \nnext", "\r\n", "plus + plus", "  ", "dbl\\\\bs", "\\n-not-a-line-break", "\\"}
+var govcPieces = []string{"a", "b c", "name1", "", " lead", "two\nlines", "x\n\n  y", "tab\there", "quo\"te", "sin'gle", "back\\slash", "é ü", "a;b{c}d", "//not-a-comment", "/* nor this */", "semi;", "+", "1+2", "trail \nnext", "\r\n", "plus + plus", "  ", "dbl\\\\bs", "\\n-not-a-line-break", "\\", "\n\" q", "\n\\ b", "\n\t z"}
 
 func govcRandArg(rng *rand.Rand) string {
 	a := govcPieces[rng.Intn(len(govcPieces))]
@@ -281,7 +281,7 @@ func TestGovcBoundedC02Parse(t *testing.T) {
 		}
 		// damage the text in one place: it must be rejected, with nothing returned
 		var bad string
-		switch rng.Intn(5) {
+		switch rng.Intn(6) {
 		case 0:
 			bad = text + " }"
 		case 1:
@@ -290,6 +290,9 @@ func TestGovcBoundedC02Parse(t *testing.T) {
 			bad = text + " leaf x \"never closed; }"
 		case 3:
 			bad = text + " description \"bad \\q escape\";"
+		case 4:
+			// a quoted plus is a string, not the concatenation sign: three strings in a row
+			bad = text + [...]string{" k \"a\" \"+\" \"b\";", " k 'a' '+' 'b' { }", " k \"a\"'+'\"b\";", " k \"a\" + \"b\" \"+\" \"c\";"}[rng.Intn(4)]
 		default:
 			bad = text + " leaf x y z;"
 		}
